@@ -282,8 +282,11 @@ Inductive wop :=
 Record uw := { u_status : option Z; u_size : N }.
 Definition uw0 : uw := {| u_status := None; u_size := 0 |}.
 (* w_nethttp: net/http's response (no body for 1xx/204/304, HEAD bodies accepted and dropped);
-   otherwise the harness's scripted writer *)
+   otherwise the harness's scripted writer.  w_head: the request's method is HEAD *)
 Record wcfg := { w_nethttp : bool; w_head : bool }.
+(* a HEAD request is answered through a writer that sends no body (HTTP requires it, net/http
+   does it) *)
+Definition head_ok (c : wcfg) : bool := implb (w_head c) (w_nethttp c).
 
 Definition body_forbidden (code : Z) : bool :=
   ((code =? 204) || (code =? 304) || ((100 <=? code) && (code <? 200)))%Z.
@@ -361,6 +364,8 @@ Definition err_ops (tbl : list (Z * N)) (ek : N) (code : Z) : list wop :=
   [OWH code; OW (if ek =? 0 then tlook tbl code - 1 else tlook tbl code) None].
 
 Definition line := (nat * Z * N)%type.    (* (log directive / entry id, {status}, {size}) *)
+(* getSubstitution's {size}: the recorder's byte count, 0 when the request's method is HEAD *)
+Definition logged_size (c : wcfg) (r : rec) : N := if w_head c then 0 else r_size r.
 
 (* log.Logger.ServeHTTP: result = writer state, returned status, panicked, lines written *)
 Definition log_serve (c : wcfg) (cs : bool) (tbl : list (Z * N)) (ek : N) (rules : list rule)
@@ -375,7 +380,7 @@ Definition log_serve (c : wcfg) (cs : bool) (tbl : list (Z * N)) (ek : N) (rules
         if (400 <=? ret)%Z then (fst (run c (u1, r1) (err_ops tbl ek ret)), 0%Z)
         else ((u1, r1), ret) in
       (u2, ret', false,
-       map (fun e => (n_id e, r_status r2, r_size r2))
+       map (fun e => (n_id e, r_status r2, logged_size c r2))
            (filter (fun e => should_log cs (n_except e) path) (ru_entries r)))
   end.
 
